@@ -9,6 +9,19 @@ from torchtree.distributions.distributions import DistributionModel
 from torchtree.typing import ID
 
 
+def log_q_per_sample(q: DistributionModel, samples: torch.Size) -> torch.Tensor:
+    r"""Log density of each draw under the variational distribution.
+
+    A factorized distribution wrapped directly in a
+    :class:`~torchtree.distributions.distributions.Distribution` returns one
+    log density per component ([\*samples, d]): the log density of a draw is
+    their sum, with the same shape as the value returned by the joint
+    distribution ([\*samples]).
+    """
+    log_q = q()
+    return log_q.reshape(tuple(samples) + (-1,)).sum(-1)
+
+
 @register_class
 class ELBO(CallableModel):
     r"""Class representing the evidence lower bound (ELBO) objective.
@@ -58,14 +71,14 @@ class ELBO(CallableModel):
         samples = kwargs.get('samples', self.samples)
         if self.score:
             self.q.sample(samples)
-            log_q = self.q()
+            log_q = log_q_per_sample(self.q, samples)
             with torch.no_grad():
                 cost = self.p() - log_q
             lp = (cost * log_q).mean()
         elif len(samples) == 2:
             # Multi sample
             self.q.rsample(samples)
-            log_q = self.q()
+            log_q = log_q_per_sample(self.q, samples)
             log_p = self.p()
             lp = (
                 torch.logsumexp(log_p - log_q, -1)
@@ -77,7 +90,7 @@ class ELBO(CallableModel):
             if self.entropy:
                 lp = self.p().mean() + self.q.entropy().sum()
             else:
-                lp = (self.p() - self.q()).mean()
+                lp = (self.p() - log_q_per_sample(self.q, samples)).mean()
         return lp
 
     def __call__(self, *args, **kwargs) -> torch.Tensor:
@@ -142,7 +155,7 @@ class KLpq(CallableModel):
     def _call(self, *args, **kwargs) -> torch.Tensor:
         samples = kwargs.get('samples', self.samples)
         self.q.sample(samples)
-        log_w = self.p() - self.q()
+        log_w = self.p() - log_q_per_sample(self.q, samples)
         # self-normalized over the last dimension; [S,K]: mean over S of the K-sample estimates
         log_w_norm = log_w - torch.logsumexp(log_w, -1, keepdim=True)
         return torch.sum(log_w_norm.exp() * log_w, -1).mean()
@@ -201,7 +214,7 @@ class KLpqImportance(CallableModel):
         self.q.sample(samples)
         with torch.no_grad():
             log_p = self.p()
-        log_q = self.q()
+        log_q = log_q_per_sample(self.q, samples)
         log_w = log_p - log_q.detach()
         w = torch.exp(log_w - log_w.max())
         w_norm = w / w.sum()
